@@ -365,7 +365,7 @@ func generate(r *hxlib.Run, emit func(hxlib.Case)) {
 	emit(hxlib.Case{Lines: []string{"w token unset slot W:1:3:1:0:0", "p 0 1 line enq won tokFull ret", "p 0 1 line enq won ret"}, Kind: "malformed"})
 	// (3) scenarios on the real logger, child process each
 	kinds := []string{"basic", "dups", "overflow", "burst", "paced", "paced-notrigger", "paced-flood", "levels", "mid", "tracer", "yield", "many", "smallcap", "smallcap", "contention"}
-	n := r.Budget(300, 2400)
+	n := r.Budget(300, 1900)
 	type job struct {
 		kind string
 		spec Spec
@@ -650,7 +650,20 @@ func (rr *runRec) verdict() string {
 		return "fail shutdown-hang"
 	}
 	if rr.meta["after_return"] != 0 {
-		return "fail write-after-return"
+		// the adapter was still called after Shutdown had returned: what had to be written before the
+		// return is judged on the writes made until then (lines logged after the request may come late)
+		full := rr.outs
+		n := rr.meta["writes_at_return"]
+		if n > len(full) {
+			n = len(full)
+		}
+		rr.outs = full[:n]
+		rr.meta["after_return"] = 0
+		v := rr.verdict()
+		rr.outs = full
+		if v != "pass" {
+			return "fail write-after-return"
+		}
 	}
 	for _, o := range rr.outs {
 		if o.gid >= rr.np {
@@ -770,7 +783,7 @@ func explain(cls string) string {
 	case "shutdown-hang":
 		return "Shutdown did not return within 60 s"
 	case "write-after-return":
-		return "the adapter was called after Shutdown had returned"
+		return "Shutdown returned before everything logged before it had been handed to the adapter (the adapter was still called afterwards)"
 	}
 	return cls
 }
